@@ -437,6 +437,7 @@ class Explorer:
                     a = tuple(self.operand(env, x) for x in t['args'])
                     if callee.endswith('as std::ops::Try>::branch'):
                         val = ('try', a[0])
+                        p.events.append(('try', a[0], t.get('line', 0), p.bb))
                     elif callee.endswith('::from_residual'):
                         val = ('residual', a[0])
                     elif self.transparent(callee) and a:
